@@ -3,6 +3,7 @@
 //! an injected error and once as a crash point (directory image), through hook H2.
 
 use crate::c05::{archive_path, read_chunks, window_count, T0};
+use crate::child::*;
 use crate::engine::*;
 use crate::ensure;
 use crate::fsx::*;
@@ -59,8 +60,9 @@ pub fn strategy() -> impl Strategy<Value = Case> {
         2 => prop::collection::vec(prop::bool::weighted(0.35), 8..=40).prop_map(|s| TrigSpec::Scripted(s, false)),
         2 => (1u32..=3).prop_map(|n| TrigSpec::Time(format!("{} seconds", n), false)),
     ];
-    let roller = (prop::sample::select(vec![0u32, 1, 7]), 1u32..=6, prop::sample::select(vec!["a.{}.log", "arch/{}/a.log", "a.{}.log.gz", "arch/{}/a.{}.log"]))
-        .prop_map(|(base, count, p)| RollSpec::Fixed { base, count, pattern: p.to_string() });
+    // (u32::MAX stands for "the window ends at index u32::MAX")
+    let roller = (prop::sample::select(vec![0u32, 1, 7, 0, 1, 7, u32::MAX]), 1u32..=6, prop::sample::select(vec!["a.{}.log", "arch/{}/a.log", "a.{}.log.gz", "arch/{}/a.{}.log"]))
+        .prop_map(|(base, count, p)| RollSpec::Fixed { base: if base == u32::MAX { u32::MAX - (count - 1) } else { base }, count, pattern: p.to_string() });
     let step = || (prop_oneof![4 => 0usize..100, 1 => 1000usize..1040], prop_oneof![3 => Just(0u32), 2 => 1u32..4]);
     (trigger, roller, prop::bool::weighted(0.6), prop::collection::vec(step(), 5..=40), 1usize..=3, prop::collection::vec(step(), 3..=25), prop::bool::weighted(0.25))
         .prop_map(|(trigger, roller, append_mode, history, persist, continuation, cross_device)| Case { trigger, roller, append_mode, history, persist, continuation, cross_device })
@@ -529,8 +531,105 @@ pub fn check_history(run: &Run, tmp: &Path, case: &Case, obs: &mut Obs) -> CaseR
     Ok(())
 }
 
+// ---- the appender as part of the installed global logger -----------------------------------------------------------
+
+/// The rolling appender is the root appender of the process's global logger (child process); the slot of its single
+/// archive is obstructed, so rotations fail for real. Whatever the rotation code reports about that failure - and
+/// through whichever channel - the append has to come back with the error, and logging has to go on.
+#[derive(Serialize, Deserialize, Debug, Clone)]
+pub struct Global {
+    pub dir: String,
+    pub limit: u64,
+    pub count: u32,
+    pub gz: bool,
+    pub records: Vec<usize>,
+}
+
+pub fn global_strategy() -> impl Strategy<Value = (u64, u32, bool, Vec<usize>)> {
+    (30u64..200, 1u32..=2, prop::bool::ANY, prop::collection::vec(prop_oneof![0usize..60, 100usize..300], 4..=10))
+}
+
+pub fn global_child(g: &Global, obs: &mut Obs) -> CaseResult {
+    use log4rs::config::{Appender, Config, Root};
+    let dir = Path::new(&g.dir);
+    let active = dir.join("active.log");
+    let pattern = if g.gz { "slot.{}.log.gz" } else { "slot.{}.log" };
+    let roller = RollSpec::Fixed { base: 0, count: g.count, pattern: pattern.into() };
+    // every slot of the window is a non-empty directory: the final step of each rotation fails
+    for o in 0..g.count {
+        let p = archive_path(dir, &roller, o).unwrap();
+        std::fs::create_dir_all(p.join("obstacle")).unwrap();
+        std::fs::write(p.join("obstacle/x"), b"x").unwrap();
+    }
+    let policy = make_policy(dir, &TrigSpec::Size(g.limit), &roller).map_err(|e| Failure { sig: "C08:build".into(), msg: e.to_string() })?;
+    let app = build_appender(&active, true, &None, policy).map_err(|e| Failure { sig: "C08:build".into(), msg: e.to_string() })?;
+    let errors = Arc::new(Mutex::new(0usize));
+    let e2 = errors.clone();
+    let config = Config::builder().appender(Appender::builder().build("roll", Box::new(app))).build(Root::builder().appender("roll").build(log::LevelFilter::Trace)).unwrap();
+    log4rs::config::init_config_with_err_handler(config, Box::new(move |_e| *e2.lock().unwrap() += 1)).map_err(|e| Failure { sig: "C08:init".into(), msg: e.to_string() })?;
+    let (tx, rx) = std::sync::mpsc::channel::<usize>();
+    let lens = g.records.clone();
+    let d2 = dir.to_path_buf();
+    let r2 = roller.clone();
+    let count = g.count;
+    std::thread::spawn(move || {
+        for (i, l) in lens.iter().enumerate() {
+            log::info!(target: "t", "{}", record_text(0, i as u32, *l));
+            let _ = tx.send(i);
+            if i + 1 == lens.len() / 2 {
+                // the obstruction goes away half-way through
+                for o in 0..count {
+                    let _ = std::fs::remove_dir_all(archive_path(&d2, &r2, o).unwrap());
+                }
+            }
+        }
+    });
+    let mut done = 0;
+    while done < g.records.len() {
+        match rx.recv_timeout(std::time::Duration::from_secs(20)) {
+            Ok(_) => done += 1,
+            Err(_) => {
+                return fail(
+                    "C08:append-never-returns",
+                    format!("record #{} logged through the installed logger (root appender = rolling file appender whose archive slot is obstructed, limit {} bytes, window {}{}) has not come back after 20 s: the failing append neither returned its error nor let logging continue", done, g.limit, g.count, if g.gz { ", gzip" } else { "" }),
+                )
+            }
+        }
+        obs.sub_evals += 1;
+    }
+    log::logger().flush();
+    // nothing acknowledged is lost: archives oldest-to-newest then the active file hold the records in order
+    let mut all = vec![];
+    for o in (0..g.count).rev() {
+        let p = archive_path(dir, &roller, o).unwrap();
+        if let Ok(raw) = std::fs::read(&p) {
+            all.extend(decoded(&p.to_string_lossy(), &raw).map_err(|e| Failure { sig: "C08:archive-undecodable".into(), msg: e })?);
+        }
+    }
+    all.extend(std::fs::read(&active).unwrap_or_default());
+    let recs = parse_stream(&all).map_err(|off| Failure { sig: "C08:split-record".into(), msg: format!("archives + active file are not a concatenation of whole records (offset {} of {})", off, all.len()) })?;
+    let seqs: Vec<u32> = recs.iter().map(|r| r.seq).collect();
+    ensure!(seqs.windows(2).all(|w| w[0] < w[1]), "C08:reordered", "records out of order after obstructed rotations through the global logger: {:?}", seqs);
+    ensure!(seqs.last().copied() == Some(g.records.len() as u32 - 1), "C08:lost-acked:active-content", "the last record is not in the active file: {:?}", seqs);
+    obs.nontrivial = *errors.lock().unwrap() > 0;
+    obs.class(format!("global-logger:rotation-errors-reported={}", (*errors.lock().unwrap()).min(3)));
+    Ok(())
+}
+
+pub fn check_global(tmp: &Path, c: &(u64, u32, bool, Vec<usize>), obs: &mut Obs) -> CaseResult {
+    let dir = scratch(tmp, "c08g");
+    let g = Global { dir: dir.display().to_string(), limit: c.0, count: c.1, gz: c.2, records: c.3.clone() };
+    let out = call_child(tmp, "c08global", &g, &[], std::time::Duration::from_secs(120));
+    let _ = std::fs::remove_dir_all(&dir);
+    absorb(out, obs)
+}
+
 pub fn run(run: &Run) {
     let tmp = run.tmp.clone();
+    let t5 = tmp.clone();
+    let g = move |c: &(u64, u32, bool, Vec<usize>), o: &mut Obs| check_global(&t5, c, o);
+    run.run_replays::<(u64, u32, bool, Vec<usize>)>("global-logger", &g);
+    run.search("global-logger", run.tier.pick(6, 300), global_strategy(), &g);
     let t2 = tmp.clone();
     let single = move |f: &Faulted, o: &mut Obs| check_faulted(&t2, f, o);
     run.run_replays::<Faulted>("faulted", &single);
@@ -542,6 +641,7 @@ pub fn replay(part: &str, case: serde_json::Value) -> Option<CaseResult> {
     let tmp = std::env::temp_dir().join(format!("lv-replay-{}", std::process::id()));
     std::fs::create_dir_all(&tmp).ok()?;
     let r = match part {
+        "global-logger" => Some(check_global(&tmp, &serde_json::from_value(case).ok()?, &mut Obs::default())),
         "faulted" => Some(check_faulted(&tmp, &serde_json::from_value(case).ok()?, &mut Obs::default())),
         "history" => {
             let c: Case = serde_json::from_value(case).ok()?;
@@ -568,7 +668,7 @@ pub fn replay(part: &str, case: serde_json::Value) -> Option<CaseResult> {
 pub fn meta() -> EvidenceMeta {
     EvidenceMeta {
         level: "fault_enumeration",
-        rule: "cases = generated histories (trigger: size / scripted pre-processing / scripted post-processing / time via the guarded clock; fixed window base in {0,1,7}, count 1-6, plain / directory-component / .gz pattern; append or truncate mode; 5-40 appends of self-delimiting records; obstruction persisting for 1-3 rotation attempts; continuation of 3-25 appends). Each history is first run dry to learn its rotations, then EVERY (rotation, step) pair - each archive shift and the final move/compress - is enumerated twice through hook H2: as an injected error (rotate aborts exactly there) and as a crash point (directory image, restart on the image in the same mode, continuation); plus hook-free obstructions: a non-empty directory at the destination of the final move / of the first shift, and (directory patterns) a dangling symlink or a regular file in place of any slot directory of the window. evaluations counts histories, oracle_evaluations_inside_cases counts faulted executions and appends. Oracle after every append and on every crash image: failing append returns Err and never panics; every managed file parses into whole records; archives by descending index then the active file yield an in-order duplicate-free stream that is gap-free w.r.t. acknowledged records; every chunk on disk before the operation except the top-index archive is still present byte-for-byte (active chunk may have grown); after the fault is lifted every append succeeds and a size trigger performs the pending rotation. non-trivial = a history with a fault at a shift step of a window >= 2, or any fault in truncate mode, or a pre-processing trigger".into(),
+        rule: "cases = generated histories (trigger: size / scripted pre-processing / scripted post-processing / time via the guarded clock; fixed window base in {0,1,7, u32::MAX-count+1}, count 1-6, plain / directory-component / .gz pattern; append or truncate mode; 5-40 appends of self-delimiting records; obstruction persisting for 1-3 rotation attempts; continuation of 3-25 appends). Each history is first run dry to learn its rotations, then EVERY (rotation, step) pair - each archive shift and the final move/compress - is enumerated twice through hook H2: as an injected error (rotate aborts exactly there) and as a crash point (directory image, restart on the image in the same mode, continuation); plus hook-free obstructions: a non-empty directory at the destination of the final move / of the first shift, and (directory patterns) a dangling symlink or a regular file in place of any slot directory of the window. Part global-logger (child process per case): the rolling appender is the root appender of the installed global logger, every archive slot is a non-empty directory until half-way through; every record logged through the macros must come back (20 s watchdog per record: a rotation failure that is reported through the logger itself must not dead-lock the appender), in order, none lost. evaluations counts histories, oracle_evaluations_inside_cases counts faulted executions and appends. Oracle after every append and on every crash image: failing append returns Err and never panics; every managed file parses into whole records; archives by descending index then the active file yield an in-order duplicate-free stream that is gap-free w.r.t. acknowledged records; every chunk on disk before the operation except the top-index archive is still present byte-for-byte (active chunk may have grown); after the fault is lifted every append succeeds and a size trigger performs the pending rotation. non-trivial = a history with a fault at a shift step of a window >= 2, or any fault in truncate mode, or a pre-processing trigger".into(),
         assumptions: vec![
             "crash = process death with an intact page cache (directory image at hook points between steps); fsync/power loss and mid-compression crashes are not modelled".into(),
             "foreground rotation only (the statement does not quantify over background rotation)".into(),
